@@ -204,7 +204,7 @@ TSpec == TInit /\ [][TNext]_tvars
 Accepted == TLCGet("stats").diameter - 1 = Len(Trace)
 
 \* ---- invariants, grouped by property ------------------------------------
-A_C01 == C01_SettlesError /\ C01_WaitersHeld /\ C01_LaneReverted /\ C01_HealthyComplete /\ C01_AllLanesFailed /\ ~a_revbad
+A_C01 == C01_SettlesError /\ C01_WaitersHeld /\ C01_LaneReverted /\ C01_HealthyComplete /\ C01_AllLanesFailed /\ C01_SingleFailureIndependent /\ ~a_revbad
 A_C02 == ~a_c02bad
 A_C03 == ~a_aggbad /\ ~a_rdybad /\ ~a_stuck
 A_C04 == ~a_redobad /\ ~a_rerunbad /\ ~a_lostbad /\ ~a_stopbad
